@@ -6,6 +6,7 @@ import (
 	"reflect"
 	"strings"
 	"sync"
+	"time"
 
 	"github.com/ozanh/ugo"
 
@@ -31,7 +32,7 @@ func (c14) Rule() string {
 }
 func (c14) Batches(string) int { return 16 }
 func (c14) Required(string) []string {
-	return []string{"compared", "invocations", "variant.pooled", "variant.unpooled", "variant.reused", "variant.recycled", "recycled_invoker_rounds", "nested_invocations", "errors_propagated", "tag.call-variadic", "tag.call-spread", "tag.assign-captured", "concurrent_runs", "tail_mix_programs"}
+	return []string{"compared", "invocations", "variant.pooled", "variant.unpooled", "variant.reused", "variant.recycled", "recycled_invoker_rounds", "second_runs_with_kept_invokers", "nested_invocations", "errors_propagated", "tag.call-variadic", "tag.call-spread", "tag.assign-captured", "concurrent_runs", "tail_mix_programs"}
 }
 func (c14) Assumptions() []string {
 	return []string{"run A (in-script calls through a script-defined CALL) is the reference", "the process-wide VM pool is primed by the previously executed programs of the same batch"}
@@ -230,9 +231,28 @@ func (m c14) pair(c *core.Ctx, src string, modules map[string]string, args []ugo
 	panicFn := func() *ugo.Function {
 		return &ugo.Function{Name: "PANIC", Value: func(...ugo.Object) (ugo.Object, error) { panic("go callback panic") }}
 	}
-	a := runVM(ca.bc, args, ugo.Map{"G": ugo.Int(3), "PANIC": panicFn()}, true)
+	// both sides run on one VM each, so that a second run (new globals object) can follow on the same VMs
+	vmA, vmB := ugo.NewVM(ca.bc).SetRecover(true), ugo.NewVM(cb.bc).SetRecover(true)
+	runOn := func(vm *ugo.VM, bc *ugo.Bytecode, extra ugo.Map) canon.Outcome {
+		rec := &canon.Recorder{}
+		g := ugo.Map{"L": rec.Func()}
+		for k, v := range extra {
+			g[k] = v
+		}
+		return canon.RunBytecode(bc, canon.RunOpts{VM: vm, Recover: true, Globals: g, Args: args, LogOf: rec.String, Timeout: 20 * time.Second})
+	}
+	a := runOn(vmA, ca.bc, ugo.Map{"G": ugo.Int(3), "PANIC": panicFn()})
 	call, cleanup := c14call(variant, st)
-	b := runVM(cb.bc, args, ugo.Map{"G": ugo.Int(3), "CALL": call, "PANIC": panicFn()}, true)
+	b := runOn(vmB, cb.bc, ugo.Map{"G": ugo.Int(3), "CALL": call, "PANIC": panicFn()})
+	var a2, b2 *canon.Outcome
+	if (variant == "reused" || variant == "recycled") && st.nested == 0 && a.Kind != "timeout" && b.Kind != "timeout" && a.Kind != "unabortable" && b.Kind != "unabortable" {
+		// the Invokers kept by the Go side (all made for the root VM: no nested invocation happened) are used again in a
+		// second run of the same VM that is given a different globals object
+		x := runOn(vmA, ca.bc, ugo.Map{"G": ugo.Int(100), "PANIC": panicFn()})
+		y := runOn(vmB, cb.bc, ugo.Map{"G": ugo.Int(100), "CALL": call, "PANIC": panicFn()})
+		a2, b2 = &x, &y
+		c.Count("second_runs_with_kept_invokers")
+	}
 	cleanup()
 	if a.Kind == "timeout" || b.Kind == "timeout" {
 		c.Inconclusive("watchdog")
@@ -264,6 +284,14 @@ func (m c14) pair(c *core.Ctx, src string, modules map[string]string, args []ugo
 		}
 		c.Violation("C14|diff|"+variant+"|"+strings.SplitN(why, " ", 2)[0]+"|"+fmt.Sprintf("%x", hashStr(src)), "calling through an Invoker ("+variant+") differs from the in-script call ("+why+")",
 			c14wit{Src: src, Modules: modules, Variant: variant, Why: why, A: a, B: b, Args: renderArgs(args)})
+		return true, st
+	}
+	if a2 != nil && a2.Kind != "timeout" && b2.Kind != "timeout" {
+		bg2 := strings.Replace(b2.Globals, "\"CALL\":<fn>,", "", 1)
+		if a2.Kind != b2.Kind || a2.Value != b2.Value || a2.Log != b2.Log || a2.ErrName != b2.ErrName || a2.ErrMsg != b2.ErrMsg || a2.Globals != bg2 {
+			c.Violation("C14|diff-second-run|"+variant+"|"+fmt.Sprintf("%x", hashStr(src)), "a second run of the same VM with a new globals object: calling through the Invokers kept from the first run ("+variant+") differs from the in-script call",
+				c14wit{Src: src, Modules: modules, Variant: variant, Why: "second run with kept Invokers", A: *a2, B: *b2, Args: renderArgs(args)})
+		}
 	}
 	return true, st
 }
